@@ -23,6 +23,41 @@ def sense_stub(I, f, locs, node, frame):
     return None
 
 
+def believed_missing(fn):
+    """attribute names the function itself expects to be absent on some binding objects: those it reads inside a
+    ``try`` whose handler catches AttributeError (a stated belief -- Engler et al.)"""
+    import ast
+    out = set()
+    for n in ast.walk(fn.node):
+        if isinstance(n, ast.Try):
+            for h in n.handlers:
+                names = []
+                if isinstance(h.type, ast.Name):
+                    names = [h.type.id]
+                elif isinstance(h.type, ast.Tuple):
+                    names = [e.id for e in h.type.elts if isinstance(e, ast.Name)]
+                if "AttributeError" in names:
+                    for st in n.body:
+                        for a in ast.walk(st):
+                            if isinstance(a, ast.Attribute) and isinstance(a.ctx, ast.Load):
+                                out.add(a.attr)
+    return out
+
+
+def sense_less_outcome(prog):
+    """what building the CheckCondition error from 'no sense data' (None) does: None if it can be built, else the error"""
+    I = prog.I
+    cls = prog.cls("pyscsi.pyscsi.scsi_sense", "SCSICheckCondition")
+    saved = I.stubs.pop(SENSE_INIT, None)
+    try:
+        ps = I.explore(lambda: I.instantiate(cls, [None], {}, None, _F()), max_paths=8)
+    finally:
+        if saved is not None:
+            I.stubs[SENSE_INIT] = saved
+    bad = [p for p in ps if not p.returned]
+    return bad[0].raised.describe() if bad else None
+
+
 def exc_name(p):
     c = p.raised.exc_class() if not p.returned else None
     if c is not None:
@@ -173,8 +208,11 @@ def check_iscsi(prog, run):
     skey = ("ext", "iscsi.Task().status")
     seen_eq = set()
     npaths = 0
+    missing = believed_missing(ex)
+    run.notes.append("ISCSIDevice.execute reads %s under `except AttributeError`: the stand-in forks on their absence" % sorted(missing))
+    no_sense = sense_less_outcome(prog) if missing else None
     for raw, prior in ((False, None), (True, None), (False, "reused"), (True, "reused")):
-        si = StandIn(prog).install()
+        si = StandIn(prog, maybe_missing=missing).install()
         try:
             def t(raw=raw, prior=prior):
                 dev = make_iscsi_device(prog)
@@ -226,8 +264,16 @@ def check_iscsi(prog, run):
                                           file, ex.node.lineno, ex.qualname)
                             continue
                         if not (isinstance(arg, External) and arg.name in ("iscsi.Task().raw_sense",)):
-                            # sense unavailable (AttributeError path): cmd.sense stays None
-                            if not (arg is None and any("raw_sense" in str(d) for d, cc_, _, _ in p.path)):
+                            absent = any(cc_ and "has no attribute" in str(d) for d, cc_, _, _ in p.path)
+                            if arg is None and absent:
+                                # the binding handed over no sense data: the failure must still surface as CheckCondition
+                                if no_sense is not None:
+                                    run.violation("check-condition-raises", c + " (binding without sense data)",
+                                                  "when the task object has no raw_sense (the case the code itself provides for with `except "
+                                                  "AttributeError`) the CheckCondition error is built from None, which raises %s: the caller "
+                                                  "sees that error, not a CheckCondition" % no_sense, file, ex.node.lineno, ex.qualname)
+                                    continue
+                            else:
                                 run.violation("check-condition-carries-sense", c, "CheckCondition is built from %r, not the task's sense" % (arg,),
                                               file, ex.node.lineno, ex.qualname)
                                 continue
